@@ -1,6 +1,7 @@
 (* Decoding of C06 cases and the verdict.
 
-   kind 0601: input = (view (openfail-path ...) (((when id) ...) ending) capacity chunklen walkfail)
+   kind 0601: input = (view (openfail-path ...) (((when id) ...) ending) capacity chunklen walkfail [transport])
+              (transport = how the harness moves the packets, harness/c0607_transport.go; the verdict does not depend on it)
               impl  = (trace hang overlaps)
    trace = events at the boundary of the real fsutil.Send call (harness/c0607_tap.go).
 
@@ -170,7 +171,7 @@ Definition clauses (exp : list entry) (tr : list event) : list bool :=
 
 Definition run_0601 (input impl : sx) : sx :=
   match input, impl with
-  | SL [v; ofl; _; _; _; _], SL [t; SN hang; _] =>
+  | SL (v :: ofl :: _ :: _ :: _ :: _ :: _), SL [t; SN hang; _] =>
     match dec_view v, sx_list sx_B ofl, sx_list dec_event t with
     | Some view, Some openfail, Some tr =>
       let served := fun e : entry => if mem_bytes (st_path (fst e)) openfail then [] else snd e in
